@@ -605,6 +605,18 @@ static Domain makeDomain(const std::string& prop, bool thorough)
             }
         }
     }
+    // mid-size and realistic frame sizes (8-bit / 16-bit truncation of slice sizes shows only here): batch sizes 1..2
+    {
+        std::vector<size_t> big = thorough ? std::vector<size_t>{279, 280, 281, 535, 536, 1499, 1500, 1501, 9000} : std::vector<size_t>{280, 536, 1500};
+        for (size_t mx : big)
+            for (size_t mn : {(size_t) 0, (size_t) 64, mx})
+            {
+                int choices = (int) (boundaryLengths(mx).size() * d.types.size());
+                for (int n = 1; n <= 2; ++n)
+                    for (int f = 0; f < choices; ++f)
+                        d.tasks.push_back({'A', mn, mx, n, f});
+            }
+    }
     // typed prototypes
     const size_t ctxs[5][2] = {{0, 40}, {0, 64}, {64, 100}, {0, 1500}, {64, 1500}};
     for (auto& cx : ctxs)
